@@ -251,6 +251,45 @@ void kernels(sink& out)
     auto mask = [](bool lt, bool le, bool gt, bool ge, bool eq, bool ne) {
         return static_cast<std::int32_t>(lt * 1 + le * 2 + gt * 4 + ge * 8 + eq * 16 + ne * 32);
     };
+    // ++x, x++, --x, x-- on scaled_integers whose unit is not 1: equivalent to adding / subtracting one, i.e. radix^-exponent
+    // representation steps (hand-written: rep +- step); wexp carries the step's decimal / binary digit count for the class
+    auto incdec = [&](auto proto, char const* name, std::int64_t step) {
+        using S = decltype(proto);
+        int ids[4];
+        char const* ops[4] = {"preinc", "postinc", "predec", "postdec"};
+        for (int k = 0; k < 4; ++k) {
+            ids[k] = add_inst(out, ev("Inst").str("kind", "NtKernel").str("op", std::string("incdec_") + ops[k]).str("type", name).num("exp", 0)
+                                           .raw("lt", ty<std::int32_t>()).raw("rt", ty<std::int32_t>()));
+        }
+        for (std::int32_t a : as) {
+            std::int64_t up = std::int64_t{a} + step, down = std::int64_t{a} - step;
+            if (up > INT32_MAX || down < INT32_MIN) {
+                continue;
+            }
+            for (int k = 0; k < 4; ++k) {
+                S x = cnl::_impl::from_rep<S>(a);
+                std::int32_t ret = 0;
+                auto wo = guarded([&] {
+                    switch (k) {
+                    case 0: ret = cnl::unwrap(++x); break;
+                    case 1: ret = cnl::unwrap(x++); break;
+                    case 2: ret = cnl::unwrap(--x); break;
+                    default: ret = cnl::unwrap(x--); break;
+                    }
+                });
+                std::int64_t after = k < 2 ? up : down;
+                std::int64_t want_ret = (k == 0 || k == 2) ? after : std::int64_t{a};
+                // l = representation before, r = step; wres = representation after, bres = hand-written after; the value the
+                // expression returned is compared by the recorder's reference only through `ret`/`want_ret` being logged
+                out.put(ev("NtKernel").num("i", ids[k]).raw("l", enc(a)).raw("r", enc(step)).raw("wres", enc(cnl::unwrap(x))).num("wexp", 0)
+                                .raw("bres", enc(after)).raw("ret", enc(ret)).raw("want_ret", enc(want_ret)).str("wout", wo).s);
+            }
+        }
+    };
+    incdec(cnl::scaled_integer<std::int32_t, cnl::power<-8>>{}, "i32_-8_2", 256);
+    incdec(cnl::scaled_integer<std::int32_t, cnl::power<-2, 10>>{}, "i32_-2_10", 100);
+    incdec(cnl::scaled_integer<std::int32_t, cnl::power<-3, 10>>{}, "i32_-3_10", 1000);
+    incdec(cnl::scaled_integer<std::int32_t, cnl::power<-1, 3>>{}, "i32_-1_3", 3);
     std::size_t n = 0;
     for (std::int32_t a : as) {
         for (std::int32_t b : bs) {
